@@ -40,10 +40,9 @@ def ac_key(b):
         if op == "SYMBOL" or op == "FUNCTION":
             params = ("<fresh>" if FRESH.match(params[0]) else params[0], params[1])
         elif op in ("FORALL", "EXISTS"):
-            # the order of the bound variables is part of the structure; binders that contain fresh names are
-            # compared as sets (fresh names carry no order information)
-            named = tuple(("<fresh>" if FRESH.match(n) else n, ty) for (n, ty) in params)
-            params = tuple(sorted(named, key=repr)) if any(n == "<fresh>" for (n, _) in named) else named
+            # the order of the bound variables is part of the structure (a renamed variable takes the place of the one
+            # it replaces, whatever fresh name it got)
+            params = tuple(("<fresh>" if FRESH.match(n) else n, ty) for (n, ty) in params)
         elif op == "ARRAY_VALUE":
             pairs = sorted(zip(ks[1::2], ks[2::2]))
             ks = [ks[0]] + [x for p in pairs for x in p]
